@@ -98,6 +98,15 @@ CLAIMED = {
          "iteration. Not decided: numerical equality of the spectra across paths (reduces to C02), band connection, yaml/hdf5 output. Findings E1, E12, E14 repaired by fix: commits.",
     technique="deductive verification: symbolic execution of the Python source with an abstract buffer-ownership model",
     design="DESIGN.md section 5 C14"),
+
+ "C06": dict(
+    text="The compiled inverse transform under contract: transform_dynmat_to_fc_ij (loop invariants over the commensurate points and the shortest-vector images) and "
+         "dym_transform_dynmat_to_fc (fill schema + both loop forms): fc[fc_index_map[i], j, a, b] equals the spec sum (sqrt(m_i m_j')/N) sum_k Re(dm_k[i a, j' b] "
+         "* mean_l exp(-2 pi i q_k . s_l)) for every i, j, a, b; untouched rows keep their values; all subscripts in bounds.",
+    note=TRUST + "Not decided by this check: the commensurate-point set (|det S| points, distinct, S^T q integral) from the Smith normal form, the Python fallback, "
+         "the forward/inverse round-trip lemma (finite geometric sum), Phonopy.ph2ph plumbing.",
+    technique="deductive verification: modular contracts + loop invariants over recursive-sum spec functions, z3",
+    design="DESIGN.md section 5 C06"),
 }
 
 NA = {
